@@ -102,11 +102,20 @@ def used_namespaces(fs):
     return al + [f'{a}::{b}' for a in al[:2] for b in al[:2]]
 
 
-def gen_case(rng, malformed=False, yaml_share=0.25, conflict=False):
+def gen_case(rng, malformed=False, yaml_share=0.25, conflict=False, ctx_kind=None, wellformed=False):
     classes = gen_classes(rng, malformed)
+    if not (malformed or conflict or wellformed) and rng.random() < 0.45:
+        wellformed = True          # keep construction errors from dominating the general stream
+    if wellformed:
+        # mostly-valid stream: one pipeline file declaring every class, no typed / abstract / cross-namespace declarations
+        for c in classes.values():
+            c['abstract'] = False
+            for p in c['params']:
+                p.pop('dtype', None)
+            c['inputs'] = [i for i in c['inputs'] if '::' not in str(i['ref']) and not str(i['ref']).startswith('~')]
     names = list(classes)
     files = []
-    mounted = conflict or rng.random() < 0.55          # one pipeline file declaring everything, mounted 1-3 times by the main file
+    mounted = conflict or wellformed or rng.random() < 0.55          # one pipeline file declaring everything, mounted 1-3 times by the main file
     nfiles = 2 if mounted else rng.randint(1, 4)
     pool = names[:]
     rng.shuffle(pool)
@@ -187,7 +196,8 @@ def gen_case(rng, malformed=False, yaml_share=0.25, conflict=False):
             qname = ('other/' + pipeline_file.split('#')[0].split('/')[-1]) if rng.random() < 0.5 and '#' not in pipeline_file else 'q_conflict.json'
             fs[qname] = q
             fs[main]['uses'] = u0 + ['@cfg/' + qname + ns_part]
-    kind = rng.choice(['none', 'none', 'dict', 'file', 'list', 'uses'])
+    kind = rng.choice(['none', 'none', 'dict', 'file', 'list', 'uses', 'uses'])
+    kind = ctx_kind or kind
     ctx = None
     used = used_namespaces(fs)
     shared = rng.choice(used) if used and rng.random() < 0.7 else None
@@ -199,10 +209,14 @@ def gen_case(rng, malformed=False, yaml_share=0.25, conflict=False):
         fs['ctx.json'] = ctx_dict(rng, used, shared); ctx = [ctx_dict(rng, used, shared), '@cfg/ctx.json', ctx_dict(rng, used, shared)]
     elif kind == 'uses':
         fs['c1.json'] = ctx_dict(rng, used); fs['c2.json'] = ctx_dict(rng, used, shared)
-        if rng.random() < 0.4:
-            fs['c2.json']['uses'] = '@cfg/c1.json as ' + rng.choice(NSN)
+        if not any(k in fs['c1.json'] for k in ('x', 'y', 'z', 'w')):
+            fs['c1.json'][rng.choice(['x', 'y', 'z'])] = 'u1'       # a value no other context gives: where c1 reaches is visible
+        if rng.random() < 0.65:
+            # nested `uses` inside a context, with and without `as`: a plain one inherits the namespace of the using context
+            fs['c2.json']['uses'] = '@cfg/c1.json' + (' as ' + rng.choice(NSN) if rng.random() < 0.5 else '')
         top = ctx_dict(rng, used, shared)
-        top['uses'] = ['@cfg/c1.json as ' + rng.choice(NSN), '@cfg/c2.json' + rng.choice(['', ' as ' + rng.choice(NSN)])]
+        ns_pick = lambda: rng.choice(used) if used and rng.random() < 0.6 else rng.choice(NSN)
+        top['uses'] = ['@cfg/c1.json as ' + ns_pick(), '@cfg/c2.json' + rng.choice(['', ' as ' + ns_pick(), ' as ' + ns_pick()])]
         if rng.random() < 0.5:
             fs['ctx.json'] = top; ctx = '@cfg/ctx.json'
         else:
